@@ -8,15 +8,12 @@ theorem planFileAct_update_some {cfg : Cfg} {m : FileMeta} {o : Option DNode}
     (h : planFileAct cfg m o = .update) : o ≠ none := by
   intro ho; subst ho; simp [planFileAct] at h
 
-/-- a `create` is planned only where the destination has nothing -/
-theorem planEntry_create_none {cfg : Cfg} {dst : Map DNode} {e : SEntry}
+/-- for a file or link a `create` is planned only where the destination has nothing -/
+theorem planEntry_create_none {cfg : Cfg} {dst : Map DNode} {e : SEntry} (hk : e.kind ≠ .dir)
     (h : (planEntry cfg dst e).act = .create) : dst.get? e.rel = none := by
   unfold planEntry at h
   split at h
-  · simp only at h
-    split at h
-    · cases h
-    · rename_i hs; simpa using hs
+  · rename_i hd; exact absurd hd hk
   · exact (planFileAct_create_iff _ _ _).1 h
   · split at h
     · cases h
@@ -28,14 +25,25 @@ theorem planEntry_create_none {cfg : Cfg} {dst : Map DNode} {e : SEntry}
       · exact (planFileAct_create_iff _ _ _).1 h
       · cases h
 
+/-- a directory is planned as `skip` where the destination has a directory, else as `create` -/
+theorem planEntry_dir_act {cfg : Cfg} {dst : Map DNode} {e : SEntry} (hk : e.kind = .dir) :
+    (dst.get? e.rel = some .dir ∧ (planEntry cfg dst e).act = .skip) ∨
+    (dst.get? e.rel ≠ some .dir ∧ (planEntry cfg dst e).act = .create) := by
+  by_cases hd : dst.get? e.rel = some .dir
+  · exact Or.inl ⟨hd, by unfold planEntry; simp [hk, hd]⟩
+  · exact Or.inr ⟨hd, by unfold planEntry; simp only [hk]⟩
+
 /-- an `update` is planned only where the destination has something -/
 theorem planEntry_update_some {cfg : Cfg} {dst : Map DNode} {e : SEntry}
     (h : (planEntry cfg dst e).act = .update) : dst.get? e.rel ≠ none := by
-  unfold planEntry at h
-  split at h
-  · simp only at h; split at h <;> cases h
-  · exact planFileAct_update_some h
-  · split at h
+  cases hk : e.kind with
+  | dir =>
+    rcases planEntry_dir_act (cfg := cfg) (dst := dst) hk with ⟨_, h'⟩ | ⟨_, h'⟩ <;> rw [h'] at h <;> cases h
+  | file m n =>
+    unfold planEntry at h; simp only [hk] at h; exact planFileAct_update_some h
+  | symlink text tgt =>
+    unfold planEntry at h; simp only [hk] at h
+    split at h
     · cases h
     · split at h
       · cases h
@@ -44,6 +52,20 @@ theorem planEntry_update_some {cfg : Cfg} {dst : Map DNode} {e : SEntry}
     · split at h
       · exact planFileAct_update_some h
       · cases h
+
+theorem planEntry_payload_dir {cfg : Cfg} {dst : Map DNode} {e : SEntry} (h : e.kind = .dir) :
+    (planEntry cfg dst e).payload = .dir := by unfold planEntry; simp [h]
+
+theorem planEntry_kind_of_payload_dir {cfg : Cfg} {dst : Map DNode} {e : SEntry}
+    (h : (planEntry cfg dst e).payload = .dir) : e.kind = .dir := by
+  unfold planEntry at h
+  split at h
+  · assumption
+  · cases h
+  · split at h
+    · cases h
+    · split at h <;> cases h
+    · split at h <;> cases h
 
 /-- a create/update task is never planned with an empty payload -/
 theorem planEntry_payload_of_cu {cfg : Cfg} {dst : Map DNode} {e : SEntry}
